@@ -31,14 +31,19 @@ for _ in range(300):
     x = z3.BitVec('x', bits)
     y = z3.BitVec('y', bits)
     c = random.getrandbits(bits)
-    terms = [x + y, x - y, x * 3, z3.SignExt(8, x + y), z3.ZeroExt(8, x - y), (x + c) / 7, z3.URem(x, 1000),
-             z3.UDiv(x + y, 10), z3.SRem(x - y, 1000), z3.Extract(bits // 2 - 1, 0, x * 5 + y)]
+    terms = [x + y, x - y, x * 3, z3.SignExt(8, x + y), z3.ZeroExt(8, x - y), (x + c) / 7, z3.URem(x, 100),
+             z3.UDiv(x + y, 10), z3.SRem(x - y, 100), (x - y) >> 2, z3.LShR(x + y, 3), (x + 1) << 2, ~x + y, z3.Extract(bits // 2 - 1, 0, x * 5 + y)]
     t = random.choice(terms)
     xv = random.getrandbits(bits)
     yv = random.getrandbits(bits)
     want = z3.simplify(z3.substitute(t, (x, z3.BitVecVal(xv, bits)), (y, z3.BitVecVal(yv, bits)))).as_long()
     tr = Translator()
-    it, lo, hi = tr.tv(t)
+    try:
+        it, lo, hi = tr.tv(t)
+    except Exception as e:
+        if type(e).__name__ == 'Unsupported':
+            continue
+        raise
     s = z3.Solver()
     for sc in tr.side.values():
         s.add(sc)
